@@ -1478,3 +1478,13 @@ VP("C02-R3D-mut-bool-text-yes", "C04", "pair form: booleans written as on/off wo
    'return "bool", "true" if value else "false"', 'return "bool", "enabled" if value else "disabled"')
 VP("C02-R3D-mut-none-parser-text", "C04", "dispatch table: none elements come back as ''", "C02-R3D", "cincoconfig/formats/xml.py",
    '    "none": lambda text: None,', '    "none": lambda text: text,')
+VP("C04-R3D-mut-encoder-rows-swapped", "C04", "encoder table lists int before bool", "C04-R3D", "cincoconfig/formats/xml.py",
+   '    (bool, "bool", _bool_to_text),\n    (int, "int", str),', '    (int, "int", str),\n    (bool, "bool", _bool_to_text),')
+VP("C04-R3D-mut-decoder-int-missing", "C04", "decoder table loses int", "C04-R3D", "cincoconfig/formats/xml.py",
+   '    "int": _text_to_int,\n', "")
+VP("C04-R3D-mut-json-sort-keys", "C04", "pretty also sorts the keys", "C04-R3D", "cincoconfig/formats/json.py",
+   'options = {"indent": 2} if self.pretty else {}', 'options = {"indent": 2, "sort_keys": True} if self.pretty else {}')
+VP("C04-R3D-mut-yaml-wrap-drops-tree", "C04", "yaml wrapper writes an empty map under the root key", "C04-R3D", "cincoconfig/formats/yaml.py",
+   "return {self.root_key: tree} if self.root_key else tree", "return {self.root_key: {}} if self.root_key else tree")
+VP("C04-R3D-mut-bool-helper-case", "C05", "shared token helper compares without lower-casing", "C04-R3D", "cincoconfig/fields/bool_field.py",
+   "    lowered = text.lower()", "    lowered = text")
